@@ -737,6 +737,19 @@ func lengthPrograms() []*dsl.Program {
 		r := &dsl.Program{Name: "L/narrow-neighbour-" + t, Packets: append([]*dsl.Packet{dsl.Root("Msg", dsl.Sc("u8", "Kind"), dsl.Lo(t, "Len", "Body"), dsl.Sc("u8", "Guard"), dsl.Mt("Kind", "Body", dsl.K("Beta", "1"), dsl.K("Empty", "2")))}, pay()...)}
 		r.Opts = dsl.TargetOpts("glnarrow" + t)
 		out = append(out, r)
+		if t == "u16" {
+			for _, late := range []bool{false, true} {
+				lf := dsl.Lo(t, "Len", "Body")
+				lf.Prefixed, lf.Tag, lf.TagLast = true, 7, late
+				n := "L/tag-before-lengthof"
+				if late {
+					n = "L/tag-after-lengthof"
+				}
+				a := &dsl.Program{Name: n, Packets: append([]*dsl.Packet{dsl.Root("Msg", dsl.Sc("u16", "Kind"), lf, dsl.Mt("Kind", "Body", dsl.K("Alpha", "1"), dsl.K("Empty", "3")))}, pay()...)}
+				a.Opts = dsl.TargetOpts("gltag" + fmt.Sprint(late))
+				out = append(out, a)
+			}
+		}
 		// the long type spelling on the length field, in both attribute placements
 		for _, pre := range []bool{false, true} {
 			lf := dsl.Lo(t, "Len", "Body")
@@ -848,6 +861,18 @@ func checksumPrograms() []*dsl.Program {
 			}
 			mk("alias-"+t+"-"+sp, dsl.Root("Msg", dsl.Sc("u32", "Seq"), dsl.Ds("Text"), ck, dsl.Sc("u8", "After")))
 		}
+	}
+	// a second prefix attribute (@tag) before and after the calculated-from attribute
+	for _, late := range []bool{false, true} {
+		ck := dsl.Ck("u16", "Sum", "SUMU16")
+		ck.Prefixed, ck.Tag, ck.TagLast = true, 10, late
+		pd := dsl.Fx(4, "Sym", &dsl.Pad{Left: true, Char: "'0'"})
+		pd.Tag, pd.TagLast = 11, late
+		n := "tag-before-attribute"
+		if late {
+			n = "tag-after-attribute"
+		}
+		mk(n, dsl.Root("Msg", dsl.Sc("u32", "Seq"), pd, ck, dsl.Sc("u8", "After")))
 	}
 	// one algorithm name on fields of different widths (an attribute shared per name would give them one width)
 	mk("shared-name-unregistered", dsl.Root("Msg", dsl.Ck("u32", "SumA", "NOSUCHX"), dsl.Sc("u8", "A"), dsl.Ck("u8", "SumB", "NOSUCHX"), dsl.Ck("u16", "SumC", "NOSUCHX"), dsl.Sc("u8", "B"), dsl.Ob("Other", "")),
